@@ -9,6 +9,7 @@ import (
 
 	"pgregory.net/rapid"
 
+	"verifharness/gen"
 	"verifharness/ref"
 	"verifharness/splitk"
 	"verifharness/vk"
@@ -17,6 +18,7 @@ import (
 var rec = vk.NewRecorder("C06")
 
 func TestMain(m *testing.M) {
+	vk.Disturb = gen.Disturb
 	code := m.Run()
 	rec.Flush("all")
 	os.Exit(code)
